@@ -119,8 +119,16 @@ def showVS : VS → String
   | .claims m => "c:" ++ "+".intercalate ((sortBy (·.1) m).map (fun c => toString c.1 ++ ">" ++ showDots (sortDedup c.2)))
   | .sessions m => "x:" ++ "+".intercalate ((sortBy (·.sid) m).map showSess)
 
+/-- Revoked sessions are not displayed (the code trims them lazily, see the model's header). -/
+def visible (p : Nat × VS) : Option (Nat × VS) :=
+  match p.2 with
+  | .sessions m =>
+    let m' := m.filter (fun x => !x.revoked)
+    if m'.isEmpty then none else some (p.1, .sessions m')
+  | _ => some p
+
 def showEntry (e : Entry) : String :=
-  let ats := sortBy (·.1) e.attrs
+  let ats := sortBy (·.1) (e.attrs.filterMap visible)
   "/".intercalate [toString e.uuid,
     (match e.st with | .live => "L" | .recycled => "R" | .tombstone => "T"),
     (if ats.isEmpty then "-" else ";".intercalate (ats.map (fun p => toString p.1 ++ "=" ++ showVS p.2)))]
